@@ -2217,6 +2217,8 @@ class Side:
             new_side.disp_flags = self.disp_flags
             new_side.disp_elevation = self.disp_elevation
             new_side.disp_pos = self.disp_pos.copy()
+            if self.disp_allowed_vert is not None:
+                new_side.disp_allowed_vert = Array('i', self.disp_allowed_vert)
             new_side._disp_verts = [
                 DispVertex(
                     vert.x,
